@@ -58,7 +58,10 @@ def _gen_race(t):
     n = 1 << z
     return {'kind': 'race', 'service': t.pick(SERVICES), 'coord': [t.choice(n), t.choice(n), z],
             'policy': t.pick([['random'], ['sticky', 0.5], ['sticky', 0.2]]), 'readers': t.randint(1, 2),
-            'gap': t.pick([1.5, 3.0, 0.2]), 'frac': t.pick([0.0, 0.4]), 'tz': t.pick(C.TIMEZONES)}
+            'gap': t.pick([1.5, 3.0, 0.2]), 'frac': t.pick([0.0, 0.4]), 'tz': t.pick(C.TIMEZONES),
+            # the per-level SQLite backend: its calls are the pre-emption points (checks/simsql.py); with a refresh rule the
+            # tile manager asks for the tile's metadata after it has loaded the tile
+            'backend': t.pick(['file', 'file', 'sqlite']), 'refresh': t.pick([None, 3600, 3600])}
 
 
 def _run_race(sc, tape):
@@ -71,14 +74,48 @@ def _run_race(sc, tape):
     from mapproxy.image import ImageSource
     from PIL import Image
     from simkit.sched import SimAbort, SimCrash
-    name = '%s:file:race' % sc['service']
+    backend = sc.get('backend', 'file')
+    name = '%s:%s:race' % (sc['service'], backend)
     w = World(tape, policy=tuple(sc['policy']), step_cap=200000, start_time=1.7e9 + sc['frac'])
+    realdir = None
+    if backend == 'sqlite':
+        from mapproxy.cache import mbtiles as mbtiles_mod
+        from checks.simsql import SimSqlite
+        from simkit.sched import simulate_module_primitives
+        _seq[0] += 1
+        realdir = '/dev/shm/verif-c20-%d-%d' % (_REAL['os.getpid'](), _seq[0])
+        os.makedirs(realdir)
+        old_cwd = os.getcwd()
+        os.chdir(realdir)       # the configured path must be the same string in every worker (lock names derive from it)
+        w.extra_patches.append((mbtiles_mod, 'sqlite3', SimSqlite(w)))
+        simulate_module_primitives(w, mbtiles_mod)
+    try:
+        return _run_race2(sc, tape, w, name, backend)
+    finally:
+        if realdir is not None:
+            import gc
+            import shutil
+            gc.collect()
+            os.chdir(old_cwd)
+            shutil.rmtree(realdir, ignore_errors=True)
+
+
+def _run_race2(sc, tape, w, name, backend):
+    import mapproxy.client.http as H
+    import mapproxy.util.times as times
+    from mapproxy.cache.tile import Tile
+    from mapproxy.image import ImageSource
+    from PIL import Image
+    from simkit.sched import SimAbort, SimCrash
     sched = w.sched
     clock = w.clock
     http = F.SimHTTP(w)
     w.extra_patches.append((H.HTTPClient, 'open', lambda self, url, data=None, method=None: http.open(self, url, data, method)))
     w.extra_patches.append((times, 'datetime', C.datetime_module(clock)))
-    conf = F.base_conf({'type': 'file', 'directory_layout': 'tc'}, meta_size=[1, 1])
+    cache_conf = {'type': 'file', 'directory_layout': 'tc'} if backend == 'file' else \
+        {'type': 'sqlite', 'directory': '/proc/self/cwd/cache'}
+    conf = F.base_conf(cache_conf, meta_size=[1, 1],
+                       refresh_before={'seconds': sc['refresh']} if sc.get('refresh') else None)
     coord = tuple(sc['coord'])
     path, query = url_for(sc['service'], coord)
     v = None
@@ -91,12 +128,16 @@ def _run_race(sc, tape):
         clock.now += sc['gap']
         bbox = tm.grid.tile_bbox(coord)
         new_gen = 77
+        t_created = max([e['t1'] for e in http.log if e['ok']] or [clock.now - sc['gap']])
+        t_store = [None, None]
 
         def writer():
             img = Image.frombytes('RGB', (U.TS, U.TS), U.render(bbox, (U.TS, U.TS), new_gen))
             tile = Tile(coord, ImageSource(img, image_opts=tm.image_opts))
             cache = [tmx for _, _, tmx in F.make_conf(conf).caches['c1'].caches()][0].cache     # the other process's object
+            t_store[0] = clock.now
             cache.store_tile(tile)
+            t_store[1] = clock.now
 
         def reader(i):
             def fn():
@@ -123,7 +164,12 @@ def _run_race(sc, tape):
                     v = {'sig': 'C20:race-wrong-response:%s' % name, 'msg': 'request %d during the rewrite: status %s, body %s %r' % (
                         i, st1, kind1, gen1)}
                     break
-                if hd1.get('etag') is not None and hd1.get('etag') == hd2.get('etag') and body1 != body2:
+                # (a backend with whole-second time stamps cannot tell two writes within one second apart)
+                same_second = backend == 'sqlite' and t_store[0] is not None and \
+                    int(t_created) in (int(t_store[0]), int(t_store[1] if t_store[1] is not None else t_store[0]))
+                if same_second and body1 != body2:
+                    probes['race_within_one_second_of_a_whole_second_backend'] = 1
+                elif hd1.get('etag') is not None and hd1.get('etag') == hd2.get('etag') and body1 != body2:
                     st3, hd3, body3 = F.wsgi_get(app, path, query, {'If-None-Match': hd1['etag']})
                     v = {'sig': 'C20:validators-of-another-body:%s' % name,
                          'msg': 'a response served while the tile was being rewritten carries the body of generation %r with the '
